@@ -13,7 +13,7 @@ SII = "slice_codec::buffer::slice::SliceInputSource::<'a>::"
 
 
 def ADD(a, b):
-    return 'Add(%s,%s).0' % tuple(sorted([a, b]))
+    return 'Add(%s,%s)' % tuple(sorted([a, b]))
 
 
 # (function suffix, unsafe callee name, ordinal) -> dict(guard, G (expected guard size or None=any), expect: {arg index: expr with {G}})
